@@ -193,11 +193,11 @@ def run_instance(inst):
         def sim_set(arrays):
             return jx.integrate(m3, param_state=sm3.pstate(arrays), t_max=0.05, **kw)
         single = len(uniq) == 1
-        def dec(x, y, clause):
-            if x.shape != y.shape: viol(clause, f"shapes {x.shape} vs {y.shape}"); return
-            verdict, info = equiv.decide_equal(list(zip(x.reshape(-1), y.reshape(-1))), f"C10/{clause}", timeout=timeout, rng=rng, counters=res["counters"], resolver=stub.resolver, opaque_prefix="sp")
+        RUN = lambda fn, *a: simenc.Run(fn, a, enc)
+        def dec(A, B, clause):
+            verdict, info = equiv.decide_runs(A, B, lambda x, y: (equiv.flat(x), equiv.flat(y)), f"C10/{clause}", timeout=timeout, rng=rng, counters=res["counters"], resolver=stub.resolver, opaque_prefix="sp")
             res["counters"][f"{clause}_{verdict}"] = res["counters"].get(f"{clause}_{verdict}", 0) + 1
-            if verdict == "differs": viol(clause, "simulations differ numerically at a sampled symbolic point")
+            if verdict in ("differs", "shape"): viol(clause, f"simulations differ (verdict {verdict}; real API relative deviation {(info or {}).get('_real_api_rel_dev')})")
             elif verdict not in ("structural", "unsat"): res["inconclusive"].append({"instance": inst, "query": clause, "reason": verdict})
         if single:
             # the trainable module's column was marked with distinct constants: rebuild an unmarked one
@@ -206,12 +206,12 @@ def run_instance(inst):
             def sim_train1(params, arrays):
                 return jx.integrate(m1, params=params, param_state=sm1.pstate(arrays), t_max=0.05, **kw)
             p = sym.symvec("pv", 1)
-            a = sym.to_obj(enc(sim_train1, [{key: p}], sm1.arrays()))
-            b = sym.to_obj(enc(sim_data, p, sm2.arrays()))
+            a = RUN(sim_train1, [{key: p}], sm1.arrays())
+            b = RUN(sim_data, p, sm2.arrays())
             dec(a, b, "EQUIV_trainable_vs_data_set")
             # set(c) vs data_set(c): the same concrete value reaches the simulation both ways
-            c_set = sym.to_obj(enc(sim_set, sm3.arrays()))
-            c_dat = sym.to_obj(enc(lambda arrs: sim_data(jnp.asarray([CVAL]), arrs), sm2.arrays()))
+            c_set = RUN(sim_set, sm3.arrays())
+            c_dat = RUN(lambda arrs: sim_data(jnp.asarray([CVAL]), arrs), sm2.arrays())
             dec(c_set, c_dat, "EQUIV_set_vs_data_set")
             # chained, overlapping calls: whole module first, then the view (later call wins where they overlap)
             whole = (lambda mm: mm) if kind == "node" else (lambda mm: mm.select(edges=list(mm.edges.index[~mm.edges[key].isna()])))
@@ -224,8 +224,8 @@ def run_instance(inst):
                 ps = sel(m6).data_set(key, jnp.asarray([CVAL]), ps)
                 return jx.integrate(m6, param_state=sm6.pstate(arrs) + ps, t_max=0.05, **kw)
             try:
-                ch_set = sym.to_obj(enc(lambda arrs: jx.integrate(m5, param_state=sm5.pstate(arrs), t_max=0.05, **kw), sm5.arrays()))
-                ch_dat = sym.to_obj(enc(sim_chain, sm6.arrays()))
+                ch_set = RUN(lambda arrs: jx.integrate(m5, param_state=sm5.pstate(arrs), t_max=0.05, **kw), sm5.arrays())
+                ch_dat = RUN(sim_chain, sm6.arrays())
                 dec(ch_set, ch_dat, "EQUIV_chained_set_vs_data_set")
             except Exception as ex:
                 viol("EQUIV_chained_set_vs_data_set", f"raised {type(ex).__name__}: {str(ex)[:100]}")
